@@ -27,6 +27,20 @@ fn flags_for(kind: &str, tier: Tier) -> Vec<bool> {
     }
 }
 
+fn long_contexts(kind: &str) -> Vec<&'static [u8]> {
+    match kind {
+        "cnf" => vec![b"", b"p cnf 2 2\n", b"p cnf 2 2\n1 ", b"p "],
+        "wcnf" => vec![b"", b"p wcnf 2 2 3\n", b"p wcnf 2 2 3\n1 ", b"p wcnf "],
+        "gcnf" => vec![b"", b"p gcnf 2 2 2\n", b"p gcnf 2 2 2\n{1} ", b"{"],
+        _ => vec![b"", b"s ", b"v ", b"v 1 ", b"s SATISFIABLE\n"],
+    }
+}
+
+/// Long offending tokens as light-schedule documents for the chunking checks.
+fn long_token_light(kind: &str) -> Vec<generic::Doc> {
+    generic::long_token_docs(&long_contexts(kind)).into_iter().map(|d| generic::Doc::new(format!("~{}", d.name), d.bytes)).collect()
+}
+
 fn main() {
     mc_core::subject::install_quiet_panic_hook();
     let cli = parse_cli();
@@ -78,7 +92,8 @@ fn main() {
                     uni: tier.pick(vec![1, 2, 3, 7, 8, 9], (1..=17).collect()),
                     chunks: tier.pick(vec![Some(1), Some(3), Some(8), None], vec![Some(1), Some(2), Some(3), Some(7), Some(8), Some(9), Some(16), None]),
                 };
-                let docs = inp.all();
+                let mut docs = inp.all();
+                docs.extend(long_token_light(kind));
                 report.count(&format!("{kind}_documents"), docs.len() as u64);
                 report.count(&format!("{kind}_subjects"), subs.len() as u64);
                 generic::c01(&subs, &docs, &params, &budget, &mut report);
@@ -128,12 +143,7 @@ fn main() {
                 let mut docs = inp.all();
                 // extreme decimal numbers at every number position (the C06 boundary documents)
                 docs.extend(c06::cases(kind, tier).into_iter().map(|c| generic::Doc::new("boundary", c.doc)));
-                let contexts: Vec<&[u8]> = match kind {
-                    "cnf" => vec![b"", b"p cnf 2 2\n", b"p cnf 2 2\n1 ", b"p "],
-                    "wcnf" => vec![b"", b"p wcnf 2 2 3\n", b"p wcnf 2 2 3\n1 ", b"p wcnf "],
-                    "gcnf" => vec![b"", b"p gcnf 2 2 2\n", b"p gcnf 2 2 2\n{1} ", b"{"],
-                    _ => vec![b"", b"s ", b"v ", b"v 1 ", b"s SATISFIABLE\n"],
-                };
+                let contexts = long_contexts(kind);
                 docs.extend(generic::long_token_docs(&contexts));
                 groups.push((kind.to_string(), subs, generic::dedup_docs(docs)));
             }
@@ -224,6 +234,10 @@ fn c10_cases() -> Vec<(Box<dyn Subject>, generic::StreamCase)> {
         (subjects::make("cnf", "i32", false), case("cnf-comment-run", b"p cnf 1 1\n", b"c a comment line\n", b"1 0\n", 20)),
         (subjects::make("wcnf", "i32", true), case("wcnf-blank-and-comment-run", b"", b"c x\n\n \t\n", b"3 1 0\n", 12)),
         (subjects::make("cnf", "i32", false), case("cnf-split-clause-comments", b"1\n", b"c inside a clause\n\n", b"0\n", 20)),
+        // a long trailer of comment and blank lines behind the last announced clause
+        (subjects::make("cnf", "i32", false), case("cnf-trailer-after-announced-clauses", b"p cnf 3 2\n1 -3 0\n2 3 -1 0\n", b"c trailer comment\n\n", b"", 20)),
+        (subjects::make("wcnf", "i32", false), case("wcnf-trailer-after-announced-clauses", b"p wcnf 3 1 9\n5 1 -3 0\n", b"c trailer\n \n", b"", 20)),
+        (subjects::make("gcnf", "i32", false), case("gcnf-trailer-after-announced-clauses", b"p gcnf 3 1 2\n{1} 1 -3 0\n", b"\nc trailer\n", b"", 20)),
         // variables, weights and groups that never repeat: nothing may be remembered per clause
         (subjects::make("cnf", "i32", false), case("cnf-distinct-variables", b"p cnf 99999999 0\n", b"######## -######## 0\n", b"", 24)),
         (subjects::make("wcnf", "i64", true), case("wcnf-distinct-weights", b"", b"######## ######## -1 0\n", b"", 24)),
